@@ -162,6 +162,20 @@ def connectT (host : Bytes) (port : Nat) (cred : Option (Bytes × Bytes)) : MT R
           afterTls rs
     else afterTls rs
 
+/-- a `connect` whose TCP connection cannot be established (the name does not resolve, the connection is refused): what
+    `connectT` does before it opens the new connection - the argument checks, the connection that is still open
+    abandoned, the SSL layer of the old connection removed - and then the error instead of the new connection -/
+def connectFailT (cred : Option (Bytes × Bytes)) : MT Replies := do
+  match cred with
+  | some (u, p) => let _ ← lift (mkCmd "USER" (some u)); let _ ← lift (mkCmd "PASS" (some p)); pure ()
+  | none => pure ()
+  let w0 ← getT
+  if w0.base.connected then
+    emitT (.ev w0.ctlTls .ctlClose)
+    modifyT fun w => { w with base := { w.base with connected := false } }
+  modifyT fun w => { w with ctlTls := false, ctlSsl := false }
+  throwT
+
 /-- `control_connection::disconnect` with an SSL layer: TLS shutdown, TCP shutdown, close - always all three -/
 def ctlCloseT : MT Unit := do
   let w ← getT
